@@ -198,6 +198,32 @@ def one_lookup(ctx, mi, src, loc, exists):
         ctx.report(dict(base, field="replace", tag=tag, replaced_flag=rw.replaced, expected="", observed="", param=".".join(path)), replay)
     elif not rw.replaced:
         ctx.report(dict(base, field="replace", tag="flag_false_but_replaced", expected="True", observed="False", param=".".join(path)), replay)
+    if rkind == "arg":
+        # the replacement is an annotated assignment that carries the argument's own name and a value (a setting
+        # copied onto a parameter): the argument gets the annotation, its OWN default may follow the value, nothing else moves
+        try:
+            tree3 = ast_parse(src, skip_docstring_remit=True)
+            repl = ast.AnnAssign(target=ast.Name(path[-1], ast.Store()), annotation=ast.Name("int", ast.Load()), value=ast.Constant(4242), simple=1)
+            rw3 = RewriteAtQuery(search=list(path), replacement_node=repl)
+            new3 = ast.fix_missing_locations(rw3.visit(tree3))
+            got3 = ast.dump(ast.parse(ast.unparse(new3)))
+        except Exception as e:
+            ctx.report_exception(e, dict(base, replacement="same_named_setting"), replay, stage="replace")
+            return
+        ctx.event("RewriteAtQuery_same_named_setting")
+        acceptable = []
+        for carry in (False, True):
+            t = ast.parse(src)
+            node, parent, _ = resolve(path, t)
+            lst = parent.args.args
+            k = lst.index(node) - (len(lst) - len(parent.args.defaults))
+            if carry and k >= 0:
+                parent.args.defaults[k] = ast.Constant(4242)
+            lst[lst.index(node)] = ast.arg(arg=path[-1], annotation=ast.Name("int", ast.Load()))
+            acceptable.append(ast.dump(ast.parse(ast.unparse(ast.fix_missing_locations(t)))))
+        if got3 not in acceptable:
+            ctx.report(dict(base, field="replace", tag="same_named_setting_changed_another_node", replaced_flag=rw3.replaced, expected="", observed="",
+                            replacement="same_named_setting", param=".".join(path)), dict(replay, after=ast.unparse(new3)))
 
 
 def reference_replace(tree, path, rkind):
